@@ -8,6 +8,13 @@
 //!   info.save_reset         `save_prev_iterate` / `reset_to_prev_iterate` (scalar part)
 //!   new.check_dimensions    `DefaultSolver::new` dimension guard
 //!   solve.boundary          implementation-only: boundary-shape solves (oracle only)
+//!   timers.script           the real `Timers` driven by scripted start/stop/suspend/resume/reset
+//!                           sequences vs the Lean state machine (structure exactly; measured
+//!                           durations inside the interval the model derives from the harness clock)
+//!   timers.solve            the timer tree left behind by `new` + `solve()` (+ a second `solve()`)
+//!                           vs the model run over the call sequence of the recorded passes
+//!   new.guards              every documented construction panic (dimension asserts, cone
+//!                           constructors) vs the model, exact class
 #![allow(non_snake_case)]
 #![allow(dead_code)]
 #![allow(clippy::too_many_arguments)]
@@ -902,6 +909,501 @@ fn oracle_check_dimensions(r: &Req, out: &str) -> Result<(), String> {
     Ok(())
 }
 
+
+// ---------------------------------------------------------------- timers.*
+
+use clarabel::timers::verif_hooks as thook;
+use clarabel::timers::Timers;
+use std::time::{Duration, Instant};
+
+/// the keys the solver uses, and two more for nesting the same name at several levels
+const TIMER_KEYS: [&str; 13] = ["setup", "presolve", "equilibration", "kktinit", "solve", "default start",
+    "IP iteration", "scale cones", "kkt update", "kkt solve", "post-process", "a", "b"];
+
+fn wire_key(k: &str) -> String { k.replace(' ', "_") }
+fn static_key(w: &str) -> &'static str {
+    TIMER_KEYS.iter().copied().find(|k| wire_key(k) == w)
+        .unwrap_or_else(|| Box::leak(w.to_string().into_boxed_str()))
+}
+fn dash(s: String) -> String { if s.is_empty() { "-".into() } else { s } }
+
+/// rows of the timer tree sorted by rendered path: (path, running, elapsed ns)
+fn timer_rows(t: &Timers) -> Vec<(String, bool, u128)> {
+    let mut rows: Vec<(String, bool, u128)> = thook::rows(t).into_iter()
+        .map(|(p, r, e)| (p.iter().map(|k| wire_key(k)).collect::<Vec<_>>().join("/"), r, e)).collect();
+    rows.sort_by(|a, b| a.0.cmp(&b.0));
+    rows
+}
+/// `stack=… keys=… running=…` (same rendering as Lean `Timers.Wire.fmtShape`)
+fn fmt_timer_shape(t: &Timers) -> String {
+    let rows = timer_rows(t);
+    let stack = thook::stack(t).iter().map(|k| wire_key(k)).collect::<Vec<_>>().join("/");
+    format!("stack={} keys={} running={}", dash(stack),
+        dash(rows.iter().map(|r| r.0.clone()).collect::<Vec<_>>().join(";")),
+        dash(rows.iter().map(|r| (r.1 as u8).to_string()).collect::<Vec<_>>().join(",")))
+}
+
+#[derive(Clone, Debug, PartialEq)]
+enum TOp { Start(&'static str), Stop, Suspend, Resume, Reset(&'static str), Read }
+
+fn fmt_top(o: &TOp) -> String {
+    match o {
+        TOp::Start(k) => format!("S:{}", wire_key(k)),
+        TOp::Stop => "T".into(),
+        TOp::Suspend => "U".into(),
+        TOp::Resume => "R".into(),
+        TOp::Reset(k) => format!("X:{}", wire_key(k)),
+        TOp::Read => "D".into(),
+    }
+}
+fn parse_tops(s: &str) -> Vec<TOp> {
+    if s == "-" || s.is_empty() { return vec![]; }
+    s.split(',').map(|t| match t.split_once(':') {
+        Some(("S", k)) => TOp::Start(static_key(k)),
+        Some(("X", k)) => TOp::Reset(static_key(k)),
+        None if t == "T" => TOp::Stop,
+        None if t == "U" => TOp::Suspend,
+        None if t == "R" => TOp::Resume,
+        None if t == "D" => TOp::Read,
+        _ => panic!("timer op {}", t),
+    }).collect()
+}
+
+struct ScriptRun {
+    /// index of the first call that panicked
+    at: Option<usize>,
+    timers: Timers,
+    /// harness clock before / after every call (ns since the start of the run)
+    tb: Vec<u128>,
+    ta: Vec<u128>,
+    /// `total_time()` at the reads
+    reads: Vec<u128>,
+}
+
+fn busy_wait(ns: u64) {
+    let t = Instant::now();
+    while (t.elapsed().as_nanos() as u64) < ns {
+        std::hint::spin_loop();
+    }
+}
+
+/// drive the real `Timers`; `gaps[i]` ns are spent before call `i` (so that intervals are not empty)
+fn run_script(ops: &[TOp], gaps: &[u64]) -> ScriptRun {
+    let mut timers = Timers::default();
+    let base = Instant::now();
+    let (mut tb, mut ta, mut reads, mut at) = (vec![], vec![], vec![], None);
+    for (i, op) in ops.iter().enumerate() {
+        if let Some(g) = gaps.get(i) { if *g > 0 { busy_wait(*g); } }
+        let before = base.elapsed().as_nanos();
+        let r = std::panic::catch_unwind(std::panic::AssertUnwindSafe(|| match op {
+            TOp::Start(k) => timers.start_as_current(k),
+            TOp::Stop => timers.stop_current(),
+            TOp::Suspend => timers.suspend(),
+            TOp::Resume => timers.resume(),
+            TOp::Reset(k) => timers.reset_timer(k),
+            TOp::Read => reads.push(timers.total_time().as_nanos()),
+        }));
+        let after = base.elapsed().as_nanos();
+        tb.push(before);
+        ta.push(after);
+        if r.is_err() {
+            at = Some(i);
+            break;
+        }
+    }
+    while tb.len() < ops.len() {
+        let l = *ta.last().unwrap_or(&0);
+        tb.push(l);
+        ta.push(l);
+    }
+    ScriptRun { at, timers, tb, ta, reads }
+}
+
+fn run_timers_script(r: &Req) -> String {
+    let ops = parse_tops(r.str("ops"));
+    let sr = run_script(&ops, &[]);
+    let rows = timer_rows(&sr.timers);
+    format!("at={} {} inb={} rdb={}", sr.at.map(|k| k.to_string()).unwrap_or_else(|| "-".into()),
+        fmt_timer_shape(&sr.timers),
+        dash(vec!["1"; rows.len()].join(",")), dash(vec!["1"; sr.reads.len()].join(",")))
+}
+
+/// The accounting the timers promise, re-derived from the script alone (no model involved): in a
+/// script that keeps the stack discipline (no stop on an empty stack, resets only while nothing
+/// runs) nothing panics, the stack ends as deep as the script says, the running timers are exactly
+/// the ones on the stack, `total_time()` never decreases between resets, and what it reports lies
+/// between the sums of the closed root intervals measured from inside and from outside by the
+/// harness clock (suspended windows excluded, nothing counted twice).
+fn oracle_timers_script(r: &Req, out: &str) -> Result<(), String> {
+    let ops = parse_tops(r.str("ops"));
+    let (tb, ta) = (r.us("tb"), r.us("ta"));
+    let rr = r.us("rr");
+    let mut depth = 0usize;
+    let mut disciplined = true;
+    // root-interval accounting with the harness clock: [lo, hi] brackets Σ root elapsed
+    let (mut lo, mut hi) = (0i128, 0i128);
+    let (mut open_lo, mut open_hi): (Option<i128>, Option<i128>) = (None, None);
+    let mut had_reset = false;
+    let mut k_read = 0usize;
+    let mut last_read: Option<usize> = None;
+    for (i, op) in ops.iter().enumerate() {
+        let (b, a) = (tb[i] as i128, ta[i] as i128);
+        match op {
+            TOp::Start(_) => {
+                if depth == 0 { open_lo = Some(a); open_hi = Some(b); }
+                depth += 1;
+            }
+            TOp::Stop => {
+                if depth == 0 { disciplined = false; break; }
+                if depth == 1 {
+                    lo += (b - open_lo.unwrap()).max(0);
+                    hi += a - open_hi.unwrap();
+                    open_lo = None;
+                    open_hi = None;
+                }
+                depth -= 1;
+            }
+            TOp::Suspend => if depth > 0 {
+                lo += (b - open_lo.unwrap()).max(0);
+                hi += a - open_hi.unwrap();
+            },
+            TOp::Resume => if depth > 0 { open_lo = Some(a); open_hi = Some(b); },
+            TOp::Reset(_) => { if depth > 0 { disciplined = false; break; } had_reset = true; }
+            TOp::Read => {
+                if k_read < rr.len() {
+                    let v = rr[k_read];
+                    if !had_reset {
+                        if (v as i128) < lo || (v as i128) > hi {
+                            return Err(format!("total_time() read {} = {} ns outside the closed root intervals [{}, {}] ns", k_read, v, lo, hi));
+                        }
+                        if let Some(p) = last_read { if v < p { return Err(format!("total_time() went back: {} after {}", v, p)); } }
+                    }
+                    last_read = Some(v);
+                }
+                k_read += 1;
+            }
+        }
+        if matches!(op, TOp::Reset(_)) { last_read = None; }
+    }
+    if disciplined {
+        if field(out, "at") != Some("-") {
+            return Err(format!("a script that keeps the stack discipline panicked: {}", out));
+        }
+        let stack = field(out, "stack").unwrap_or("-");
+        let d = if stack == "-" { 0 } else { stack.split('/').count() };
+        if d != depth {
+            return Err(format!("stack depth {} after a script that leaves {} timers open", d, depth));
+        }
+        let running = field(out, "running").unwrap_or("-").split(',').filter(|x| *x == "1").count();
+        if running != depth {
+            return Err(format!("{} timers running with a stack of depth {}", running, depth));
+        }
+    }
+    Ok(())
+}
+
+fn gen_timer_script(rng: &mut Rng) -> Vec<TOp> {
+    let n = 1 + rng.below(24);
+    let disciplined = rng.bool(0.7);
+    let solver_like = rng.bool(0.4);
+    let keys: &[&'static str] = if solver_like { &TIMER_KEYS[4..11] } else { &["a", "b", "solve", "kkt solve"] };
+    let mut ops = vec![];
+    let mut depth = 0usize;
+    for _ in 0..n {
+        let c = rng.below(100);
+        let op = if c < 30 { TOp::Start(*rng.choose(keys)) }
+            else if c < 55 { TOp::Stop }
+            else if c < 67 { TOp::Suspend }
+            else if c < 79 { TOp::Resume }
+            else if c < 87 { TOp::Reset(*rng.choose(keys)) }
+            else { TOp::Read };
+        let op = if disciplined {
+            match op {
+                TOp::Stop if depth == 0 => TOp::Start(*rng.choose(keys)),
+                TOp::Reset(_) if depth > 0 => TOp::Read,
+                o => o,
+            }
+        } else { op };
+        match op { TOp::Start(_) => depth += 1, TOp::Stop => depth = depth.saturating_sub(1), _ => {} }
+        // notimeit! always comes as a pair
+        if op == TOp::Suspend && rng.bool(0.8) {
+            ops.push(TOp::Suspend);
+            ops.push(TOp::Resume);
+            continue;
+        }
+        ops.push(op);
+    }
+    if disciplined && rng.bool(0.7) {
+        for _ in 0..depth { ops.push(TOp::Stop); }
+        ops.push(TOp::Read);
+    }
+    ops
+}
+
+fn submit_timer_script(s: &mut Session, ops: &[TOp], gaps: &[u64]) {
+    let sr = run_script(ops, gaps);
+    let rows = timer_rows(&sr.timers);
+    let l = Line::new("timers.script")
+        .s("ops", &dash(ops.iter().map(fmt_top).collect::<Vec<_>>().join(",")))
+        .is("tb", &sr.tb).is("ta", &sr.ta)
+        .is("re", &rows.iter().map(|r| r.2).collect::<Vec<_>>())
+        .is("rr", &sr.reads);
+    s.count(if sr.at.is_some() { "timers:script-panics" } else { "timers:script-ok" });
+    s.submit(l.done());
+}
+
+/// the timer calls of `new` / `solve()` as a script (what the macros expand to), for the real
+/// `Timers` under the harness clock
+fn solve_like_script(rng: &mut Rng) -> Vec<TOp> {
+    use TOp::*;
+    let mut ops = vec![Start("setup"), Start("presolve"), Stop, Start("equilibration"), Stop, Start("kktinit"), Stop, Stop];
+    for _ in 0..1 + rng.below(2) {
+        ops.extend([Suspend, Resume, Reset("solve"), Start("solve"), Start("default start"), Stop, Start("IP iteration")]);
+        let passes = 1 + rng.below(5);
+        for k in 0..passes {
+            ops.extend([Read, Suspend, Resume]);
+            if k + 1 == passes {
+                if rng.bool(0.3) { ops.extend([Suspend, Resume]); }
+                break;
+            }
+            ops.extend([Start("scale cones"), Stop, Start("kkt update"), Stop, Start("kkt solve"), Stop]);
+            if rng.bool(0.8) { ops.extend([Start("kkt solve"), Stop]); }
+        }
+        ops.extend([Stop, Stop]);
+        if rng.bool(0.5) { ops.extend([Suspend, Resume]); }
+        ops.extend([Start("post-process"), Stop, Read]);
+    }
+    ops
+}
+
+// ---- timers.solve
+
+struct SolveShape { done: Vec<bool>, fail: Vec<bool>, sok: Vec<bool>, kaff: Vec<bool>, extra: bool, times: Vec<f64>, final_time: f64 }
+
+/// `new` + `nsolve` observed solves on the same solver; the timer tree afterwards
+fn solve_n(p: &Prob, settings: DefaultSettings<f64>, nsolve: usize) -> (Vec<SolveShape>, String, bool, bool) {
+    use clarabel::io::ConfigurablePrintTarget;
+    use clarabel::verif_hooks::observer;
+    let mut solver = DefaultSolver::new(&p.P, &p.q, &p.A, &p.b, &p.cones, settings);
+    solver.print_to_buffer();
+    let mut shapes = vec![];
+    let mut mono = true;
+    let mut first_read: Option<f64> = None;
+    for _ in 0..nsolve {
+        observer::start();
+        let r = std::panic::catch_unwind(std::panic::AssertUnwindSafe(|| solver.solve()));
+        let events = observer::take();
+        if let Err(e) = r { std::panic::resume_unwind(e); }
+        let ps = passes_of(&events);
+        let times: Vec<f64> = ps.iter().map(|q| q.solve_time).collect();
+        let final_time = solver.solution.solve_time;
+        if times.windows(2).any(|w| w[1] < w[0]) || times.last().map(|t| *t > final_time).unwrap_or(false)
+            || solver.info.solve_time != final_time {
+            mono = false;
+        }
+        if first_read.is_none() { first_read = times.first().copied(); }
+        shapes.push(SolveShape {
+            done: ps.iter().map(|q| q.isdone).collect(),
+            fail: ps.iter().map(|q| q.isdone && q.ip.as_deref() == Some("Fail")).collect(),
+            sok: ps.iter().map(|q| q.ss.unwrap_or(false)).collect(),
+            kaff: ps.iter().map(|q| q.alpha_aff.is_some()).collect(),
+            extra: solver.info.step_length == 0.0,
+            times, final_time,
+        });
+    }
+    let t = solver.timers.as_ref().expect("timers stowed back");
+    let rows = timer_rows(t);
+    // `solve_time` is `total_time()`: the sum of the root timers, nothing else
+    let ns: u128 = rows.iter().filter(|r| !r.0.contains('/')).map(|r| r.2).sum();
+    let total = Duration::new((ns / 1_000_000_000) as u64, (ns % 1_000_000_000) as u32).as_secs_f64();
+    let mut sum = total == solver.info.solve_time;
+    // the first check of the first solve sees exactly the setup time
+    if let (Some(f), Some(setup)) = (first_read, rows.iter().find(|r| r.0 == "setup")) {
+        let st = Duration::new((setup.2 / 1_000_000_000) as u64, (setup.2 % 1_000_000_000) as u32).as_secs_f64();
+        if f != st { sum = false; }
+    }
+    (shapes, fmt_timer_shape(t), sum, mono)
+}
+
+fn run_timers_solve(r: &Req) -> String {
+    let p = req_prob(r);
+    let s = req_settings(r);
+    let (_, shape, sum, mono) = solve_n(&p, s, r.u("nsolve"));
+    format!("at=- {} sum={} mono={}", shape, sum as u8, mono as u8)
+}
+fn oracle_timers_solve(_r: &Req, out: &str) -> Result<(), String> {
+    // whatever the passes were: nothing is left running, the stack is empty, and the three root
+    // timers are the ones `solve_time` is documented to add up
+    if field(out, "stack") != Some("-") {
+        return Err(format!("timer stack not empty after solve(): {}", out));
+    }
+    if field(out, "running").unwrap_or("").split(',').any(|x| x == "1") {
+        return Err(format!("a timer is still running after solve(): {}", out));
+    }
+    let keys: Vec<&str> = field(out, "keys").unwrap_or("").split(';').collect();
+    let roots: Vec<&str> = keys.iter().copied().filter(|k| !k.contains('/')).collect();
+    if roots != ["post-process", "setup", "solve"] {
+        return Err(format!("root timers {:?}", roots));
+    }
+    if field(out, "sum") != Some("1") {
+        return Err("solve_time is not the sum of the root timers / first check did not see the setup time".into());
+    }
+    if field(out, "mono") != Some("1") {
+        return Err("solve_time seen by the passes is not non-decreasing up to the final value".into());
+    }
+    Ok(())
+}
+fn submit_timers_solve(s: &mut Session, p: &Prob, st: DefaultSettings<f64>, nsolve: usize) {
+    let (pc, sc) = (p.clone(), st.clone());
+    let Ok((shapes, _, _, _)) = std::panic::catch_unwind(std::panic::AssertUnwindSafe(|| solve_n(&pc, sc, nsolve))) else {
+        s.count("timers:solve-panic");
+        return;
+    };
+    let mut l = line_prob(Line::new("timers.solve"), p);
+    l = line_settings(l, &st).u("nsolve", nsolve);
+    for (i, sh) in shapes.iter().enumerate() {
+        let k = i + 1;
+        l = l.bs(&format!("d{}", k), &sh.done).bs(&format!("f{}", k), &sh.fail)
+            .bs(&format!("s{}", k), &sh.sok).bs(&format!("k{}", k), &sh.kaff).b(&format!("x{}", k), sh.extra);
+    }
+    s.count("timers:solve");
+    s.submit(l.done());
+}
+
+// ---------------------------------------------------------------- new.guards
+
+/// class of a construction panic (same names as `guardClass` of the model driver)
+fn guard_class(msg: &str) -> String {
+    let m = msg;
+    if m.contains("A and b incompatible dimensions") { "A-b".into() }
+    else if m.contains("Constraint dimensions inconsistent with size of cones") { "cones".into() }
+    else if m.contains("A and q incompatible dimensions") { "A-q".into() }
+    else if m.contains("P and q incompatible dimensions") { "P-q".into() }
+    else if m.contains("P not square") { "P-square".into() }
+    else if m.contains("assertion failed: dim >= 2") { "soc-dim".into() }
+    else if m.contains("assertion failed: α.iter().all(") { "genpow-positive".into() }
+    else if m.contains("assertion failed: (T::one() - α.sum()).abs()") { "genpow-sum".into() }
+    else { format!("other:{}", m.chars().map(|c| if c.is_whitespace() || c == '=' || c == ',' { '_' } else { c }).take(60).collect::<String>()) }
+}
+
+fn run_guards(r: &Req) -> String {
+    let (pm, pn, q, am, an, b) = (r.u("Pm"), r.u("Pn"), r.u("q"), r.u("Am"), r.u("An"), r.u("b"));
+    let cones = parse_cones(r.str("cones"));
+    let P = CscMatrix::<f64>::zeros((pm, pn));
+    let A = CscMatrix::<f64>::zeros((am, an));
+    let mut s = DefaultSettings::<f64>::default();
+    s.verbose = false;
+    if r.has("presolve") { s.presolve_enable = r.b("presolve"); }
+    let res = std::panic::catch_unwind(std::panic::AssertUnwindSafe(|| {
+        let solver = DefaultSolver::new(&P, &vec![0.0; q], &A, &vec![0.0; b], &cones, s);
+        solver.variables.s.len()
+    }));
+    match res {
+        Ok(_) => "guard=ok".into(),
+        Err(e) => {
+            let m = if let Some(x) = e.downcast_ref::<&str>() { x.to_string() }
+                else if let Some(x) = e.downcast_ref::<String>() { x.clone() } else { "?".into() };
+            format!("guard={}", guard_class(&m))
+        }
+    }
+}
+/// the documented contract, stated without the model: a solver object exists exactly when the five
+/// dimension equalities hold and every generalized power cone that owns rows has positive
+/// exponents summing to one (to within ε·len/2); the first violated condition, in the documented
+/// order, names the panic
+fn oracle_guards(r: &Req, out: &str) -> Result<(), String> {
+    let (pm, pn, q, am, an, b) = (r.u("Pm"), r.u("Pn"), r.u("q"), r.u("Am"), r.u("An"), r.u("b"));
+    let cones = parse_cones(r.str("cones"));
+    let p: usize = cones.iter().map(cone_nvars).sum();
+    let mut want = if b != am { "A-b" } else if p != b { "cones" } else if q != an { "A-q" }
+        else if q != pn { "P-q" } else if pm != pn { "P-square" } else { "ok" }.to_string();
+    if want == "ok" {
+        for c in &cones {
+            if let GenPowerConeT(al, d2) = c {
+                if al.len() + d2 == 0 { continue; }
+                if !al.iter().all(|a| *a > 0.0) { want = "genpow-positive".into(); break; }
+                let sum: f64 = al.iter().fold(0.0, |acc, a| acc + a);
+                if !((1.0 - sum).abs() < f64::EPSILON * al.len() as f64 * 0.5) { want = "genpow-sum".into(); break; }
+            }
+        }
+    }
+    let got = field(out, "guard").unwrap_or("?");
+    if got != want {
+        return Err(format!("construction gave `{}`, the documented guards say `{}`", got, want));
+    }
+    Ok(())
+}
+
+fn rand_guard_cone(rng: &mut Rng) -> SupportedConeT<f64> {
+    match rng.below(16) {
+        0 => ZeroConeT(rng.below(3)),
+        1 | 2 => NonnegativeConeT(rng.below(4)),
+        3 => SecondOrderConeT(rng.below(4)),
+        4 => SecondOrderConeT(*rng.choose(&[0usize, 1, 2])),
+        5 => ExponentialConeT(),
+        6 => PowerConeT(*rng.choose(&[0.5, 0.0, 1.0, -0.5, 2.0, f64::NAN, 1e-300])),
+        7 => PSDTriangleConeT(rng.below(4)),
+        8 => GenPowerConeT(vec![0.5, 0.5], rng.below(3)),
+        9 => GenPowerConeT(vec![], rng.below(3)),
+        10 => GenPowerConeT(vec![1.0], rng.below(2)),
+        11 => GenPowerConeT(vec![0.5, 0.0, 0.5], 1),
+        12 => GenPowerConeT(vec![1.5, -0.5], 1),
+        13 => GenPowerConeT(vec![0.3, 0.3, 0.3], rng.below(2)),
+        14 => GenPowerConeT(vec![0.1; 10], 1),
+        _ => GenPowerConeT(vec![f64::NAN, 0.5], 1),
+    }
+}
+
+fn guard_cases(s: &mut Session) {
+    let sub = |s: &mut Session, pm: usize, pn: usize, q: usize, am: usize, an: usize, b: usize, cones: &[SupportedConeT<f64>], presolve: bool| {
+        let l = Line::new("new.guards").u("Pm", pm).u("Pn", pn).u("q", q).u("Am", am).u("An", an).u("b", b)
+            .s("cones", &fmt_cones(cones)).b("presolve", presolve);
+        let out = s.submit(l.done());
+        s.count(&format!("guards:{}", field(&out, "guard").unwrap_or("?").split(':').next().unwrap_or("?")));
+    };
+    // hand-picked corners: no constraints, empty cone list, cones of dimension zero, SOC 0 / 1 / 2,
+    // PSD 0 / 1, genpow without rows, genpow without exponents
+    let corners: Vec<Vec<SupportedConeT<f64>>> = vec![
+        vec![], vec![ZeroConeT(0)], vec![NonnegativeConeT(0), SecondOrderConeT(0), PSDTriangleConeT(0)],
+        vec![SecondOrderConeT(1)], vec![SecondOrderConeT(2)], vec![SecondOrderConeT(0), SecondOrderConeT(1), SecondOrderConeT(1)],
+        vec![PSDTriangleConeT(1)], vec![GenPowerConeT(vec![], 0)], vec![GenPowerConeT(vec![], 2)],
+        vec![GenPowerConeT(vec![1.0], 0)], vec![GenPowerConeT(vec![0.5, 0.5], 0)],
+        vec![GenPowerConeT(vec![0.5, 0.5 + 1e-16], 1)], vec![GenPowerConeT(vec![0.5, 0.5 + 3e-16], 1)],
+        vec![NonnegativeConeT(2), GenPowerConeT(vec![0.0, 1.0], 1), GenPowerConeT(vec![0.7, 0.7], 1)],
+        vec![GenPowerConeT(vec![0.7, 0.7], 1), GenPowerConeT(vec![0.0, 1.0], 1)],
+        vec![PowerConeT(0.0)], vec![PowerConeT(1.5)], vec![PowerConeT(f64::NAN)],
+    ];
+    for cones in &corners {
+        let m: usize = cones.iter().map(cone_nvars).sum();
+        for n in [1usize, 3] {
+            sub(s, n, n, n, m, n, m, cones, true);
+            sub(s, n, n, n, m, n, m, cones, false);
+            sub(s, n, n, n, m + 1, n, m + 1, cones, true);
+            sub(s, n, n, n, m, n, m + 1, cones, true);
+            sub(s, n, n + 1, n, m, n, m, cones, true);
+            sub(s, n + 1, n, n, m, n, m, cones, true);
+            sub(s, n, n, n, m, n + 1, m, cones, true);
+        }
+    }
+    for _ in 0..s.budget(300, 6000) {
+        let mut rng = s.rng.fork();
+        let k = rng.below(5);
+        let cones: Vec<SupportedConeT<f64>> = (0..k).map(|_| rand_guard_cone(&mut rng)).collect();
+        let m: usize = cones.iter().map(cone_nvars).sum();
+        let n = 1 + rng.below(3);
+        let (mut pm, mut pn, mut q, mut am, mut an, mut b) = (n, n, n, m, n, m);
+        // zero, one or two inconsistencies
+        for _ in 0..*rng.choose(&[0usize, 0, 1, 1, 2]) {
+            let d = 1 + rng.below(2);
+            match rng.below(6) {
+                0 => pm += d, 1 => pn += d, 2 => q += d, 3 => am += d, 4 => an += d,
+                _ => b = if rng.bool(0.5) { b + d } else { b.saturating_sub(d) },
+            }
+        }
+        sub(s, pm, pn, q, am, an, b, &cones, rng.bool(0.8));
+    }
+}
+
 // ---------------------------------------------------------------- solve.boundary
 
 fn run_boundary(r: &Req) -> String {
@@ -936,6 +1438,15 @@ fn channels() -> Vec<Channel> {
             rust_fn: "Solver::solve timers (notimeit!/total_time) + check_termination time limit", lean: "C04.maxtime" },
         Channel { name: "solve.boundary", tol: Tol::Exact, run: run_boundary, oracle: Some(oracle_solve), modelled: false,
             rust_fn: "DefaultSolver::new + solve on boundary shapes", lean: "-" },
+        Channel { name: "timers.script", tol: Tol::Exact, run: run_timers_script, oracle: Some(oracle_timers_script), modelled: true,
+            rust_fn: "Timers::{start_as_current,stop_current,suspend,resume,reset_timer,total_time}, InnerTimer::*, SubTimersMap::* (timers/timers.rs)",
+            lean: "Timers.step / run / totalTime; C04.timers_*" },
+        Channel { name: "timers.solve", tol: Tol::Exact, run: run_timers_solve, oracle: Some(oracle_timers_solve), modelled: true,
+            rust_fn: "timeit!/notimeit! expansions in DefaultSolver::new and Solver::solve; DefaultInfo::{reset,update,finalize} (timer part)",
+            lean: "Timers.newOps / solveOps; C04.timers_solve_*" },
+        Channel { name: "new.guards", tol: Tol::Exact, run: run_guards, oracle: Some(oracle_guards), modelled: true,
+            rust_fn: "DefaultSolver::new / _check_dimensions / make_cone (SecondOrderCone::new, GenPowerConeData::new asserts)",
+            lean: "NewGuards.newGuards; C04.new_guards_*" },
     ]
 }
 
@@ -1267,6 +1778,9 @@ fn boundary_cases(s: &mut Session) {
                 }
                 // the skeleton must also reproduce the boundary runs
                 if !out.starts_with("panic") && mi != 2 {
+                    if verbose && (mi == 200 || mi == 0) && !(tl > 0.0 && tl.is_finite()) {
+                        submit_timers_solve(s, &p, st.clone(), 1 + k % 2);
+                    }
                     submit_trace(s, &p, st);
                 }
             }
@@ -1310,6 +1824,22 @@ fn generate(s: &mut Session) {
     if !s.is_searching() {
         boundary_cases(s);
         dimension_cases(s);
+        guard_cases(s);
+        // the real Timers under scripted call sequences (random, and the solver's own sequence)
+        for k in 0..s.budget(150, 4000) {
+            let mut rng = s.rng.fork();
+            let ops = if k % 8 == 0 { solve_like_script(&mut rng) } else { gen_timer_script(&mut rng) };
+            let gaps: Vec<u64> = ops.iter().map(|_| if rng.bool(0.5) { 2_000 + rng.below(40_000) as u64 } else { 0 }).collect();
+            submit_timer_script(s, &ops, &gaps);
+        }
+        // the timer tree after new + solve (+ solve)
+        for _ in 0..s.budget(60, 2500) {
+            let mut rng = s.rng.fork();
+            let p = random_problem(&mut rng);
+            let mut st = base_settings(&mut rng);
+            st.time_limit = if rng.bool(0.15) { 0.0 } else { f64::INFINITY };
+            submit_timers_solve(s, &p, st, 1 + rng.below(2));
+        }
         // corpus: badly scaled PSD problems on which a LAPACK wrapper used to panic
         for l in include_str!("c04_corpus.txt").lines().filter(|l| !l.trim().is_empty()) {
             s.count("corpus");
